@@ -1,8 +1,9 @@
 Require Import QtlVerif.ShutdownDefs QtlVerif.SrcShutdown.
 Require Extraction.
 Require Import ExtrOcamlBasic.
-(* the model's code-dependent switch is computed from the translated skeleton *)
+(* the model's code-dependent switches are computed from the translated skeleton *)
 Definition rc_src : bool := rechecks_after_relock src_skeleton.
-Definition accept_src := accept_shutdown rc_src.
-Definition run_src := run rc_src.
-Extraction "shutdown_model.ml" accept_src prop_c04_b stuck_b errorb run_src init mu rc_src.
+Definition du_src : bool := dec_unconditional src_skeleton.
+Definition accept_src := accept_shutdown rc_src du_src.
+Definition run_src := run rc_src du_src.
+Extraction "shutdown_model.ml" accept_src prop_c04_b stuck_b leaked_b errorb run_src init mu rc_src du_src.
